@@ -2,7 +2,7 @@
 from . import common
 from .common import Exc
 from .oracle_env import env_for
-from .url_grammar import gen_su, call
+from .url_grammar import gen_su, gen_url, call
 from .C04 import irrelevant_variants
 
 THEOREMS = ['C06_no_scheme'] + ["(main statement: harness deciders on the implementation + model correspondence — partial)"]
@@ -21,7 +21,12 @@ def run(res, tier, rng):
     for i in range(n):
         base_suffix = rng.choice(["com", "fr", "co.uk", "org", "com.au"])
         name = rng.choice(["facebook", "lemonde", "example", "youtube", "x"])
-        su = gen_su(rng, hosts=[name + "." + base_suffix, "blog." + name + "." + base_suffix], schemes=("http://", "https://", ""))
+        hosts = [name + "." + base_suffix, "blog." + name + "." + base_suffix]
+        if i % 5 == 4:
+            # a registrable name that is itself a (private) public suffix, or a bare multi-label suffix
+            hosts = [rng.choice(["blogspot.com", "github.io", "uk.com", "co.uk", "x.blogspot.com", "x.github.io", "com.au"])]
+            name = hosts[0]
+        su = gen_su(rng, hosts=hosts, schemes=("http://", "https://", ""))
         base = su.render()
         for ss in (False, True):
             for pa in (False, True):
@@ -50,6 +55,8 @@ def run(res, tier, rng):
                 if ss:
                     for _ in range(3):
                         sfx = rng.choice(suffixes)
+                        if not su.host.endswith("." + base_suffix) or i % 5 == 4:
+                            break
                         w = su.copy(); w.host = su.host[: -len(base_suffix)] + sfx; variants.append(("suffix swap " + sfx, w.render()))
                 for nm, v in variants:
                     res.evaluations += 1
@@ -72,7 +79,9 @@ def run(res, tier, rng):
                 w = su.copy(); w.host = "zz." + su.host
                 if call(fingerprint_url, w.render(), strip_suffix=False) == call(fingerprint_url, base, strip_suffix=False) and "ZZ" not in ISO:
                     res.violation("property", "a label that is not a country code was stripped", input=dict(url=w.render()), impl=call(fingerprint_url, w.render()))
-    # model vs implementation
+    # model vs implementation (also on the urls of the shared grammar: compositional hosts, table-driven query items)
+    for _ in range(1500 if tier == "quick" else 30000):
+        cases_for_model.append((gen_url(rng), rng.random() < 0.5))
     chunks = [cases_for_model[i:i + 300] for i in range(0, len(cases_for_model), 300)]
     outs = common.run_driver_parallel([("fingerprint", [env_for(*[c[0] for c in ch]), [[u, ss] for u, ss in ch]]) for ch in chunks], jobs=12)
     for ch, out in zip(chunks, outs):
